@@ -69,6 +69,8 @@ func init() {
 	registerFamily("C03", C03)
 	registerFamily("C06", C06)
 	registerFamily("C08", C08)
+	registerFamily("C16", C16)
+	registerFamily("C15", C15)
 }
 
 var _ = engine.VerifDir
